@@ -14,11 +14,17 @@ STUB_ATTR = {
     "S2": "#[kani::stub(std::fmt::format, crate::stubs::fmt_format)]",
 }
 STUB_ATTR["S4"] = "#[kani::stub(core::fmt::Formatter::pad, crate::stubs::fmt_pad)]"
+STUB_ATTR["S5"] = "#[kani::stub(std::string::String::push, crate::stubs::string_push_ascii)]"
+STUB_ATTR["S6"] = "#[kani::stub(std::collections::VecDeque::grow, crate::stubs::vecdeque_grow)]"
+STUB_ATTR["S7"] = "#[kani::stub(smallvec::SmallVec::reserve_one_unchecked, crate::stubs::smallvec_reserve_one)]"
 STUB_ATTR["S3a"] = "#[kani::stub(std_detect::detect::arch::x86::__is_feature_detected::avx2, crate::ascii_ops::avx2_no)]"
 STUB_ATTR["S3b"] = ("#[kani::stub(std_detect::detect::arch::x86::__is_feature_detected::avx2, crate::ascii_ops::avx2_yes)]\n"
                     "#[kani::stub(debruijn::bitops_avx2::convert_bases, crate::ascii_ops::kernel_spec::convert_bases)]\n"
                     "#[kani::stub(debruijn::bitops_avx2::pack_32_bases, crate::ascii_ops::kernel_spec::pack_32_bases)]")
 STUB_TEXT = {
+    "S7": "SmallVec::reserve_one_unchecked (heap spill) replaced by an asserted-unreachable stub (edge lists hold <= 4 entries = the inline capacity)",
+    "S6": "VecDeque::grow replaced by an asserted-unreachable stub (the scratch deque handed to the hook is pre-reserved beyond every reachable length; capacity is unobservable)",
+    "S5": "String::push(c) replaced by a one-byte push with `c` is ASCII asserted inside the stub (exact whenever the harness verifies)",
     "S3a": "x86 feature detection replaced by `false` (scalar path of from_acgt_bytes)",
     "S3b": "x86 feature detection replaced by `true` and the two AVX2 kernels replaced by their scalar specification (proved equal to the real kernels for all 256^32 blocks by the mirsmt queries)",
     "S4": "core::fmt::Formatter::pad(s) replaced by write_str(s) (exact for '{}' without width/precision)",
@@ -496,7 +502,7 @@ def step_harnesses():
                     bounds="%d-node graph with node lengths %s over %s: all bases, stranded and unstranded, ALL 4^K query k-mers (present and absent), both directions; %s" % (nn, lens, tag, GV)))
         hs.append(H("c03_find_edges__%s__l%s" % (tag, ls), ["C03"],
                     "crate::step_ops::find_edges::<%s, %d, %d>(%s)" % (ty, nn, L, arr), unwind=max(14, 2 * L + 4), cap=900, mem=20,
-                    stubs=["S1", "S2"], tier="thorough",
+                    stubs=["S1", "S2", "S7"], tier="quick" if (tag == "kmer3" and lens == (3, 4)) else "thorough",
                     funcs=["DebruijnGraph::find_edges", "Node::edges", "Node::l_edges", "Node::r_edges", "Node::exts", "Node::data", "Node::len"],
                     bounds="%d-node graph, lengths %s over %s: all bases, all extension sets, every node and side; %s" % (nn, lens, tag, GV)))
         hs.append(H("c09_fix_exts__%s__l%s" % (tag, ls), ["C09", "C03"],
@@ -532,6 +538,60 @@ def step_harnesses():
     return hs
 
 
+def walk_harnesses():
+    """C01/C02: the growth loops of the k-mer-table compressor (hook H2b)."""
+    hs = []
+    VAL = "table validity assumed: distinct keys, canonical when unstranded, every examined link's target has >=1 extension on the facing side unless palindromic (the code's documented `unreachable`)"
+    for tag, ns in (("kmer4", (1, 2, 3)), ("kmer3", (2, 3)), ("kmer5", (2,)), ("kmer6", (2,))):
+        ty, k = KT_BY_TAG[tag][1], KT_BY_TAG[tag][2]
+        for n in ns:
+            for je in (False, True):
+                uw = max(k + 2, n + 3)
+                qw = tag == "kmer4" and ((n == 2 and not je) or n == 3)
+                qb = tag == "kmer4" and (n == 2 or (n == 3 and not je))
+                suffix = "%s__n%d_%s" % (tag, n, "eq" if je else "any")
+                hs.append(H("c02_walk__" + suffix, ["C02", "C01"],
+                            "crate::walk_ops::walk::<%s, %d, %s>()" % (ty, n, "true" if je else "false"),
+                            unwind=uw, cap=900, mem=8, stubs=["S1", "S2"], tier="quick" if qw else "thorough",
+                            funcs=["CompressFromHash::extend_kmer", "CompressFromHash::try_extend_kmer", "BitSet::remove", "Vec::push"],
+                            bounds="%d-row table over %s: all keys, extension sets, payloads, availability subsets, stranded/unstranded, both directions, every start row; %s" % (n, tag, VAL)))
+                hs.append(H("c01_build_node__" + suffix, ["C01", "C02"],
+                            "crate::walk_ops::build_node::<%s, %d, %s>()" % (ty, n, "true" if je else "false"),
+                            unwind=uw, cap=1200, mem=8, stubs=["S1", "S2", "S6"], tier="quick" if qb else "thorough",
+                            funcs=["CompressFromHash::build_node", "CompressFromHash::extend_kmer", "CompressFromHash::try_extend_kmer",
+                                   "VecDeque::push_front", "VecDeque::push_back", "Exts::from_single_dirs", "Exts::complement",
+                                   "ScmapCompress::reduce" if je else "SimpleCompress::reduce"],
+                            bounds="%d-row table over %s: all keys, extension sets, payloads, availability subsets containing the seed, stranded/unstranded, every seed row; caller-supplied scratch deque pre-reserved (capacity unobservable); %s" % (n, tag, VAL)))
+    return hs
+
+
+def export_harnesses():
+    """C20: GFA / JSON export link structure on small graphs."""
+    hs = []
+    GV = "graph validity assumed: node-end k-mers pairwise distinct per side (MPHF precondition), extensions reciprocal"
+    shapes = [("kmer3", (3,), True), ("kmer3", (4,), False), ("kmer4", (4,), False), ("kmer4", (5,), False),
+              ("kmer3", (3, 4), True), ("kmer3", (4, 3), False), ("kmer4", (4, 5), False)]
+    for tag, lens, q in shapes:
+        ty, k = KT_BY_TAG[tag][1], KT_BY_TAG[tag][2]
+        ls = "_".join(str(x) for x in lens)
+        arr = "[%s]" % ", ".join(str(x) for x in lens)
+        hs.append(H("c20_gfa__%s__l%s" % (tag, ls), ["C20"],
+                    "crate::export_ops::gfa::<%s, %d, %d>(%s)" % (ty, len(lens), k + 1, arr), unwind=8, cap=1800, mem=20,
+                    stubs=["S1", "S2", "S4", "S5", "S7"], tier="quick" if q else "thorough",
+                    funcs=["DebruijnGraph::write_gfa", "DebruijnGraph::node_to_gfa", "Node::l_edges", "Node::r_edges", "DebruijnGraph::find_edges",
+                           "DebruijnGraph::find_link", "DnaStringSlice::to_dna_string", "core::fmt::write"],
+                    bounds="%d-node graph with node lengths %s over %s: all bases, all 256 extension sets per node, stranded/unstranded; fixed-array sink; %s" % (len(lens), lens, tag, GV)))
+        if len(lens) == 2 or q:
+            hs.append(H("c20_json__%s__l%s" % (tag, ls), ["C20"],
+                        "crate::export_ops::json::<%s, %d, %d>(%s)" % (ty, len(lens), k + 1, arr), unwind=8, cap=1800, mem=20,
+                        stubs=["S1", "S2", "S4", "S5", "S7"], tier="quick" if q else "thorough",
+                        funcs=["DebruijnGraph::to_json_rest", "Node::to_json", "Node::edges_to_json", "Node::r_edges", "DebruijnGraph::find_edges",
+                               "DebruijnGraph::find_link", "<DnaStringSlice as Debug>::fmt", "<serde_json::Value as Display>::fmt", "core::fmt::write"],
+                        bounds="%d-node graph with node lengths %s over %s: all bases, all 256 extension sets per node, stranded/unstranded; payload rendered as null; fixed-array sink; graph validity assumed: node-end k-mers pairwise distinct per side" % (len(lens), lens, tag)))
+    hs.append(H("c20_probe_fmt_line", [], "crate::export_ops::probe_fmt_line()", unwind=8, cap=600, tier="thorough", stubs=["S1", "S2", "S4", "S5", "S7"]))
+    return hs
+
+
 def filter_harnesses():
     hs = []
     for m in (1, 2, 3, 4):
@@ -557,6 +617,8 @@ def all_harnesses():
     hs += kmer_harnesses()
     hs += filter_harnesses()
     hs += step_harnesses()
+    hs += walk_harnesses()
+    hs += export_harnesses()
     hs += msp_harnesses()
     hs += iter_harnesses()
     hs += ascii_harnesses()
